@@ -234,7 +234,8 @@ def rule_range(prog, rep):
     c = prog.cls("flowjax.bijections.affine.TriangularAffine")
     f = Interp(prog).eval_init(c, [("sym", "LOC"), ("sym", "ARR")], {"lower": ("sym", "LOWER")})
     site = method_site(prog, c, "__init__")
-    tri = f.get("triangular", ("unknown", "missing"))
+    from ..terms import lambda_normal
+    tri = lambda_normal(prog, f.get("triangular", ("unknown", "missing")))
     rp = _reparams(tri)
     ok = bool(rp)
     if ok:
